@@ -121,12 +121,24 @@ def run_parse(c):
     from ssh_audit.software import Software
     rng = random.Random(c['seed'])
     viol = {}
-    n = ninj = nprod = 0
+    n = ninj = nprod = ntwin = 0
     for _ in range(c['n']):
         line, exp = gen_line(rng, inject='inject' in c['mode'], product='product' in c['mode'])
         n += 1
         ninj += not exp['valid_ascii']
+        # the conforming twin of a line with replaced characters (what the shown text looks like), parsed right before or right after it in the same process: two different lines, two verdicts
+        twin = ''.join(ch if 32 <= ord(ch) < 127 else '?' for ch in line) if not exp['valid_ascii'] else None
+        if twin is not None and n % 2 == 0:
+            tb = Banner.parse(twin)
+            ntwin += 1
+            if tb is not None and not tb.valid_ascii:
+                viol.setdefault('C16/twin-flagged:before', _v('C16/twin-flagged:before', 'a printable-ASCII line is flagged as non-conforming', line=twin))
         b = Banner.parse(line)
+        if twin is not None and n % 2 == 1:
+            tb = Banner.parse(twin)
+            ntwin += 1
+            if tb is not None and not tb.valid_ascii:
+                viol.setdefault('C16/twin-flagged:after', _v('C16/twin-flagged:after', 'a printable-ASCII line is flagged as non-conforming after a line that differs from it only in replaced characters was parsed', line=twin, other=line))
         if b is None:
             k = 'C16/not-recognised:' + c['mode']
             viol.setdefault(k, _v(k, 'a line of the banner form was not accepted', line=line))
@@ -147,7 +159,7 @@ def run_parse(c):
             if sw is None or sw.product != exp['product'] or (sw.version != exp['version'] and not (free and sw.version.startswith(exp['version']))):
                 k = 'C16/product-wrong:' + exp['product']
                 viol.setdefault(k, _v(k, 'product/version not extracted', line=line, got=repr(sw), want=[exp['product'], exp['version']]))
-    return list(viol.values()), {'lines_parsed': n, 'injected_lines': ninj, 'product_lines': nprod}
+    return list(viol.values()), {'lines_parsed': n, 'injected_lines': ninj, 'product_lines': nprod, 'conforming_twins_parsed': ntwin}
 
 
 HEADER_POOL = ['Welcome to the machine', '*** NOTICE: authorised use only ***', 'this server speaks SSH-2.0-like protocols', ' leading space line', 'x', 'SSH', 'ssh-2.0-lowercase',
